@@ -31,6 +31,7 @@ MutantAlphabet ==
                          ELSE win \in {0, 1, 5} /\ (Key = "none" \/ route \in {"global", "setter"}))
     \/ /\ CfgRead = "both" /\ BaseCfg
        /\ win \in {0, 1, 2, 3, 5} /\ tp \in {1, 2} /\ (ModeRead = "construct" => Key = "none")
+       /\ (Key \in {"size", "first", "window"} => mode = "k")
     \/ /\ CfgMutant /\ win \in {0, 5} /\ extra = "none" /\ mode = "k"
 
 \* ---- export of the configuration alphabet (binding A of the configuration dimension): every class of
